@@ -54,6 +54,19 @@ def Rdr.readByte (r : Rdr) : Option (UInt8 × Rdr) :=
 /-- after the failing read: was the error io.EOF (limiter used up, or the peer closed) rather than the deadline? -/
 def Rdr.errIsEOF (r : Rdr) (e : EndK) : Bool := r.N == 0 || e == .eof
 
+/-- what `parseVersion2` does once `Peek(len)` succeeded: addresses are read from, and the block is drained out of,
+    the `len` buffered bytes at the head of `X` -/
+def tailFree (b13 b14 : UInt8) (len : Nat) (X : Bytes) : Rd :=
+  if X.length < len then .err
+  else if b13 = 0x20 then .sock (16 + len)
+  else if b14 &&& 0xF0 = 0x10 then
+    .hdr b14 (some (to16 (X.take 4))) (some (to16 ((X.drop 4).take 4)))
+      (be16 (X.getD 8 0) (X.getD 9 0)) (be16 (X.getD 10 0) (X.getD 11 0)) (16 + len)
+  else if b14 &&& 0xF0 = 0x20 then
+    .hdr b14 (some (X.take 16)) (some ((X.drop 16).take 16))
+      (be16 (X.getD 32 0) (X.getD 33 0)) (be16 (X.getD 34 0) (X.getD 35 0)) (16 + len)
+  else .hdr b14 none none 0 0 (16 + len)
+
 /-- `parseVersion2` on the segmented reader (after `Peek(12)` matched the signature) -/
 def parseV2Seg (r0 : Rdr) (e : EndK) : Rd × Rdr :=
   let r1 := { r0 with buf := r0.buf.drop 12 }          -- 12 × ReadByte: all buffered by the Peek
@@ -80,16 +93,7 @@ def parseV2Seg (r0 : Rdr) (e : EndK) : Rd × Rdr :=
               else
                 let r6 := r5.need len                            -- Peek(length)
                 if r6.buf.length < len then (.err, r6)
-                else
-                  let blk := r6.buf                              -- addresses and drain come out of the buffer
-                  let r7 := { r6 with buf := r6.buf.drop len }
-                  if isLocal then (.sock (16 + len), r7)
-                  else if b14 &&& 0xF0 = 0x10 then
-                    (.hdr b14 (some (to16 (blk.take 4))) (some (to16 ((blk.drop 4).take 4)))
-                      (be16 (blk.getD 8 0) (blk.getD 9 0)) (be16 (blk.getD 10 0) (blk.getD 11 0)) (16 + len), r7)
-                  else if b14 &&& 0xF0 = 0x20 then
-                    (.hdr b14 (some (blk.take 16)) (some ((blk.drop 16).take 16))
-                      (be16 (blk.getD 32 0) (blk.getD 33 0)) (be16 (blk.getD 34 0) (blk.getD 35 0)) (16 + len), r7)
-                  else (.hdr b14 none none 0 0 (16 + len), r7)
+                else (tailFree b13 b14 len r6.buf,               -- addresses and drain come out of the buffer
+                      { r6 with buf := r6.buf.drop len })
 
 end BfeVerif.C46
